@@ -12,6 +12,7 @@ from common import show_list
 LEVEL = "proof"
 LEAN_PROPS = ["FastTicc.Props.C07", "FastTicc.Props.C07mask", "FastTicc.Props.C01", "FastTicc.Props.C06", "FastTicc.Props.C10", "FastTicc.Props.FrontEnd"]
 LEAN_HELPERS = ["FastTicc.Proofs.Stack", "FastTicc.Proofs.Viterbi", "FastTicc.Proofs.Joint"]
+LEAN_TRANSLATED = {"FastTicc.Props.TrMask": ["label_switching_cost_template"]}
 RULE = ("(a) mask helper on all tuples of stacked lengths (quick: 1..4 series, lengths 1..6; thorough: 1..5 series, "
         "lengths 1..7) plus random longer tuples; (b) complete joint runs with 1..6 series of unequal length, observing "
         "the switching cost and cost table that reach the labelling step in every round; non-trivial = >=2 series and "
@@ -68,8 +69,11 @@ def run(ctx):
         cfgs.append(dict(c2, lens=[c2["W"] + 33, c2["W"] + 12], data_seed=c2["data_seed"] + 1))
         cfgs.append(dict(c2, lens=[c2["W"] + 22, c2["W"] + 23], data_seed=c2["data_seed"] + 2))
     outs = ctx.driver.run([f"mask {show_list(t)}" for t in tuples])
+    gen_cases = []
     for t, out in zip(tuples, outs):
         got = dp.label_switching_cost_template(list(t))
+        if all(float(x) == int(x) for x in got):
+            gen_cases.append((show_list(t), "ok " + show_list([int(x) for x in got]), {"lens_tuple": list(t)}))
         ends = set(np.cumsum(t)[:-1] - 1)
         want = [0.0 if i in ends else 1.0 for i in range(sum(t))]
         if got.shape != (sum(t),) or [float(x) for x in got] != want:
@@ -79,6 +83,7 @@ def run(ctx):
         if show_list([int(x) for x in got]) != out:
             ctx.violation("correspondence-break", "maskTemplate vs label_switching_cost_template", {"lens_tuple": list(t)})
         ctx.case(("mask", t), nontrivial=len(t) >= 2, sample={"lens": list(t), "mask": [int(x) for x in got]} if t in ((3, 2, 4),) else None)
+    ctx.gen_compare("label_switching_cost_template", gen_cases)
     ctx.count("mask_tuples", len(tuples))
 
     # ---------------- (b) joint runs
